@@ -41,8 +41,9 @@ type LoopSpec struct {
 }
 
 type loopVar struct {
-	Name string
+	Name string // name in the invariant
 	Type string
+	Src  string // name of the variable in the code ("cur=items": Name cur, Src items)
 }
 
 type Contract struct {
@@ -285,7 +286,11 @@ func parseContractFile(path, pkgPath string) (*ContractFile, error) {
 					if len(sp) != 2 {
 						return nil, fmt.Errorf("%s:%d: bad loop var %q", path, ln, p)
 					}
-					ls.VarList = append(ls.VarList, loopVar{sp[0], strings.TrimSpace(sp[1])})
+					lv := loopVar{Name: sp[0], Type: strings.TrimSpace(sp[1]), Src: sp[0]}
+					if i := strings.Index(sp[0], "="); i > 0 {
+						lv.Name, lv.Src = sp[0][:i], sp[0][i+1:]
+					}
+					ls.VarList = append(ls.VarList, lv)
 				}
 			}
 			cur.Loops[ord] = ls
@@ -323,7 +328,7 @@ func (c *Contract) parseHeader(pkgPath string) error {
 			if len(sp) != 2 {
 				return fmt.Errorf("bad capture %q", p)
 			}
-			c.captures = append(c.captures, loopVar{sp[0], strings.TrimSpace(sp[1])})
+			c.captures = append(c.captures, loopVar{Name: sp[0], Type: strings.TrimSpace(sp[1]), Src: sp[0]})
 		}
 	}
 	src := "package p\n" + hdr + " {}\n"
@@ -442,6 +447,7 @@ func ufInt(name string, args ...any) int { return 0 }
 func callStr(fn string, s string) string { return "" }
 func renderedRange(expr string) string { return "" }
 func inlined() bool { return false }
+func sameArray(a, b any) bool { return false }
 func within(fn string) bool { return false }
 func foldStr(n int, f func(i int) string) string { return "" }
 func foldInt(n int, f func(i int) int64) int64 { return 0 }
@@ -672,7 +678,7 @@ var ghostNames = map[string]bool{
 	"gvcModLoc": true, "gvcModGhost": true, "gvcModFlag": true, "gvcModMap": true, "gvcModGlob": true, "gvcModElems": true,
 	"fsContent": true, "fsExists": true, "fsReadable": true, "fsIsDir": true, "fsMode": true, "fsSize": true, "fsMTime": true,
 	"fsLink": true, "fsIsLink": true, "ufStr": true, "ufInt": true, "ufBool": true,
-	"errIs": true, "errAsSigningFailure": true, "errMsg": true, "mapHas": true, "bit": true, "isNilFunc": true, "dynType": true, "mergoOverride": true, "deepEq": true, "forallKeys": true, "forallStr": true, "globErr": true, "readerContent": true, "callStr": true, "callStrs": true, "renderedRange": true, "inlined": true, "within": true, "foldStr": true, "foldInt": true, "lastBytes": true, "lastStr": true, "lastOK": true, "nthBytes": true, "lastTime": true, "eachStr": true,
+	"errIs": true, "errAsSigningFailure": true, "errMsg": true, "mapHas": true, "bit": true, "isNilFunc": true, "dynType": true, "mergoOverride": true, "deepEq": true, "forallKeys": true, "forallStr": true, "globErr": true, "readerContent": true, "callStr": true, "callStrs": true, "renderedRange": true, "inlined": true, "sameArray": true, "within": true, "foldStr": true, "foldInt": true, "lastBytes": true, "lastStr": true, "lastOK": true, "nthBytes": true, "lastTime": true, "eachStr": true,
 }
 
 func ghostBuiltin(fn *ssa.Function) string {
@@ -767,6 +773,10 @@ func (e *Engine) ghostCall(c *CallCtx, g string, fn *ssa.Function) *Term {
 			return Forall([]*Term{j}, Implies(rng, body))
 		}
 		return Not(Forall([]*Term{j}, Not(And(rng, body))))
+	case "sameArray":
+		// two slices over the same backing array, starting at the same element
+		a, b := e.payloadTerm(c.args[0]), e.payloadTerm(c.args[1])
+		return And(Eq(SliceBase(a), SliceBase(b)), Eq(SliceOff(a), SliceOff(b)))
 	case "within":
 		// true when the clause is evaluated while the named function is being executed
 		name := e.constStr(c.args[0])
@@ -1362,10 +1372,10 @@ func (e *Engine) loopVarValues(fr *Frame, li *loopInfo, ls *LoopSpec, st *State)
 				break
 			}
 			n := phi.Comment
-			if n == v.Name || (v.Name == "rangeint" && n == "rangeint.iter") {
+			if n == v.Src || (v.Src == "rangeint" && n == "rangeint.iter") {
 				val = st.vals[phi]
 			}
-			if v.Name == "iter" && n == "rangeindex" {
+			if v.Src == "iter" && n == "rangeindex" {
 				val = Add(st.vals[phi], IntT(1))
 			}
 		}
@@ -1373,7 +1383,7 @@ func (e *Engine) loopVarValues(fr *Frame, li *loopInfo, ls *LoopSpec, st *State)
 			// a variable that lives in memory (address-taken or named result)
 			for _, b := range fr.fn.Blocks {
 				for _, ins := range b.Instrs {
-					if a, ok := ins.(*ssa.Alloc); ok && a.Comment == v.Name {
+					if a, ok := ins.(*ssa.Alloc); ok && a.Comment == v.Src {
 						if l, ok := st.vals[a]; ok {
 							val = e.loadPtr(st, a.Type().(*types.Pointer).Elem(), l)
 						}
@@ -1386,7 +1396,7 @@ func (e *Engine) loopVarValues(fr *Frame, li *loopInfo, ls *LoopSpec, st *State)
 			for _, b := range fr.fn.Blocks {
 				for _, ins := range b.Instrs {
 					if d, ok := ins.(*ssa.DebugRef); ok && !d.IsAddr {
-						if id, ok := d.Expr.(*ast.Ident); ok && id.Name == v.Name {
+						if id, ok := d.Expr.(*ast.Ident); ok && id.Name == v.Src {
 							if x, ok := st.vals[d.X]; ok && val == nil {
 								val = x
 							}
@@ -1396,7 +1406,7 @@ func (e *Engine) loopVarValues(fr *Frame, li *loopInfo, ls *LoopSpec, st *State)
 			}
 		}
 		if val == nil {
-			panic(fmt.Sprintf("loop %d of %s: no loop variable %q", li.ordinal, shortFn(fr.fn), v.Name))
+			panic(fmt.Sprintf("loop %d of %s: no loop variable %q", li.ordinal, shortFn(fr.fn), v.Src))
 		}
 		out = append(out, val)
 	}
